@@ -814,10 +814,19 @@ def cases(tier):
     for H in range(1, 4):
         for W in range(1, 4):
             if H * W <= capc:
+                # every body runs a three-step history, so the largest all-mask shapes share the pattern / route lists between
+                # them (2x3 takes the even entries, 3x2 the odd ones; 3x3 in the thorough tier every second one)
+                big = H * W >= 6
                 for i, p in enumerate(["u1", "u2", "u3", "mA", "mB"] + ([] if quick else ["u4", "mC"])):
-                    out.append(("case_sampler", {"H": H, "W": W, "pattern": p, "geom": GEOM_CYCLE[(i + H + W) % 4]}))
+                    if big and p != "mA" and i % 2 != (H + (1 if H * W == 9 else 0)) % 2:
+                        continue
+                    out.append(("case_sampler", {"H": H, "W": W, "pattern": p, "geom": GEOM_CYCLE[(i + H + W) % 4]},
+                                {"split": 2} if H * W >= 9 else None))
                 for i, (p, route) in enumerate(dec + ([] if quick else [("mC", "from_mask"), ("u4", "from_mask")])):
-                    out.append(("case_decorator", {"H": H, "W": W, "pattern": p, "geom": GEOM_CYCLE[(i + H + W) % 4], "route": route}))
+                    if big and i % 2 != H % 2:
+                        continue
+                    out.append(("case_decorator", {"H": H, "W": W, "pattern": p, "geom": GEOM_CYCLE[(i + H + W) % 4], "route": route},
+                                {"split": 2} if H * W >= 9 else None))
     for i, mn in enumerate(["corner33", "three33", "ring4", "edge35"] + ([] if quick else ["diag4", "full4", "hole5"])):
         for j, p in enumerate(["u2", "mA"] if quick else ["u2", "u3", "mA", "mC"]):
             out.append(("case_sampler", {"H": 0, "W": 0, "pattern": p, "geom": GEOM_CYCLE[(i + j + 1) % 4], "mask_name": mn}))
